@@ -3,9 +3,9 @@
     [xitem] of Foreign.v (arguments kept in a key-sorted map, each string argument parsed again).
     Theorem: on every value of that shape [inline] is the source-level semantics [xdenote] — argument
     maps in BTreeMap order against arguments in source order, arguments inlined in the target's
-    effective locale, substitution through chains.  What is NOT proved is that the parser produces
-    that shape for printed references with arguments ([parse_args_statement], proved for
-    argument-less references in RoundTripRef3.v); full soundness follows from it. *)
+    effective locale, substitution through chains.  That the parser produces that shape for printed
+    sources ([parse_args_statement]) is proved in ForeignSound7.v from the round trip of
+    RoundTripRef1-4.v; here full soundness is reduced to it ([sound_from_parse_args]). *)
 From Coq Require Import List NArith ZArith Bool Arith Lia Wf_nat Permutation.
 Import ListNotations.
 From LI Require Import Base.StrOps Base.StrLemmas Parser.Parse Parser.Json Parser.Reduce Parser.Source Parser.RoundTrip1
@@ -317,7 +317,7 @@ Proof.
 Qed.
 End Sound.
 
-(** * what remains: the parser builds the shape [XRep] for printed sources with arguments *)
+(** * the parser statement (proved in ForeignSound7.v): the parser builds the shape [XRep] for printed sources *)
 Definition parse_args_statement : Prop :=
   forall idc items v, xitems_wf idc items = true ->
   parse_top idc json_args_model true (xprint_list items) = Ok v -> XRep v items.
